@@ -315,3 +315,19 @@ func (w *world) grantChanged() bool {
 	want := w.gprist["/granted.txt"]
 	return !strings.HasPrefix(want, fmt.Sprintf("file mode=%o size=%d mtime=%d ", info.Mode().Perm(), info.Size(), info.ModTime().UnixNano()))
 }
+
+// runCaseAbsent runs the case in a sentinel directory from which every
+// sentinel file has been removed (directories stay), then restores the
+// pristine world. Used by the outside-independence relation.
+func (w *world) runCaseAbsent(c c08Case, settle bool) *obs {
+	for _, f := range []string{"exist.txt", "mod.lua", filepath.Join("sub", "inner.txt")} {
+		os.Remove(filepath.Join(w.S, f))
+	}
+	os.Remove(filepath.Join(w.S, "emptydir"))
+	w.pristine = snapDir(w.S)
+	o := w.runCase(c, settle)
+	if err := w.rebuild(); err != nil {
+		o.Panic = "harness: cannot rebuild sentinel: " + err.Error()
+	}
+	return o
+}
